@@ -372,6 +372,13 @@ theorem C17_ix_asciiSet (chars : Bytes) (hb : ∀ x ∈ chars, x < 256) :
     ∃ as, Ix.makeASCIISet chars Ix.zero8 = .ok as ∧ ∀ c, c < 256 → Ix.asciiContains as c = .ok (asciiContains chars c) :=
   Ix.asciiSet_refines chars hb
 
+/-- **P8 (Check, IndexAfter).** The whole of `headers.Check` — the function that reads the attacker-controlled
+`Access-Control-Request-Headers` lines — at index level: `cutAtComma`, `TrimOWS` and `IndexAfter`'s
+`set.elems[start:]` stay in range on every set and every list of lines (`start ≤ Size` is an invariant of the loop,
+by P3), every loop ends, and the verdict is the list-level model's (the one C02 and C14 are proved about). -/
+theorem C17_ix_check (set : SortedSet) (acrhs : List Bytes) : Ix.check set acrhs = .ok (Headers.check set acrhs) :=
+  Ix.check_refines set acrhs
+
 /-- The checked operations do report what Go would panic on (the theorems above are not vacuous): reading past
 the end, an inverted slice, `parseScheme` without its `len(str) == 0 ||` guard, `lastByte` without its guard. -/
 example : Ix.idx [1, 2, 3] 3 = .error () := by rfl
@@ -381,6 +388,7 @@ example : (Ix.idx [] 0 >>= fun c => pure (Lex.isLowerAlpha c) : Ix.Chk Bool) = .
 example : Ix.idx [] (Ix.len [] - 1) = .error () := by rfl
 example : Ix.insertG [1, 2, 3] 4 (9 : Nat) = .error () := by rfl
 example : Ix.asciiContains [0, 0, 0, 0, 0, 0, 0] 255 = .error () := by rfl
+example : Ix.indexAfter { elems := [[97]], maxLen := 1 } 1 [97] = .error () := by rfl
 example : Ix.parseScheme (Spec.b "https://a") = .ok (some (Spec.b "https", Spec.b "://a")) := by rfl
 example : Ix.splitAtCommonSuffix (Spec.b "foo.example.com") (Spec.b "bar.example.com")
     = .ok (Spec.b "foo", Spec.b "bar", Spec.b ".example.com") := by rfl
@@ -402,6 +410,8 @@ transliteration was written from (Gen/Facts.lean carries today's texts in the co
   * `origins.insert|func[T any](s []T, i int, v T) []T { var dummy T s = append(s, dummy) copy(s[i+1:], s[i:]) s[i] = v return s }`
   * `util.MakeASCIISet|func(chars string) ASCIISet { var as ASCIISet for i := range len(chars) { c := chars[i] as[c/32] |= 1 << (c % 32) } return as }`
   * `util.(*ASCIISet).Contains|func(c byte) bool { return (as[c/32] & (1 << (c % 32))) != 0 }`
+  * `headers.Check|func(set util.SortedSet, acrhs []string) bool { maxLen := MaxOWSBytes + set.MaxLen() + MaxOWSBytes + 1 var ( posOfLastNameSeen = -1 name string commaFound bool emptyElements int ok bool ) for _, acrh := range acrhs { for { name, acrh, commaFound = cutAtComma(acrh, maxLen) name, ok = TrimOWS(name, MaxOWSBytes) if !ok { return false } if name == "" { emptyElements++ if emptyElements > MaxEmptyElements { return false } if !commaFound { break } continue } i := set.IndexAfter(posOfLastNameSeen, name) if i < 0 { return false } posOfLastNameSeen = i if !commaFound { break } } } return true }`
+  * `util.(SortedSet).IndexAfter|func(n int, e string) int { if set.maxLen < uint(len(e)) { return -1 } start := n + 1 i, found := slices.BinarySearch(set.elems[start:], e) if !found { return -1 } return start + i }`
 -/
 def auditedBodies : List Bytes := [
   Spec.b "origins.parseScheme|04a7c4ffcf12f0724767ced4",
@@ -416,7 +426,9 @@ def auditedBodies : List Bytes := [
   Spec.b "headers.First|42c035fb58f9353926d95d4e",
   Spec.b "origins.insert|fb4213f2b7d6db6f6915e660",
   Spec.b "util.MakeASCIISet|32a0ffb8e82102331e8343b7",
-  Spec.b "util.(*ASCIISet).Contains|d91cdec9740b2a4dc9133158"
+  Spec.b "util.(*ASCIISet).Contains|d91cdec9740b2a4dc9133158",
+  Spec.b "headers.Check|bd2865f1784a37ea10b3264f",
+  Spec.b "util.(SortedSet).IndexAfter|678117c59beca02b1cce59bc"
 ]
 
 /-- **C17 (bodies).** The functions modelled at index level read, today, exactly as they did when the
@@ -442,6 +454,7 @@ theorem C17_ix_bodies : Facts.cors_ixBodies = auditedBodies := by decide +kernel
 #print axioms C17_ix_insert
 #print axioms C17_ix_first
 #print axioms C17_ix_asciiSet
+#print axioms C17_ix_check
 #print axioms C17_ix_bodies
 
 end Cors
